@@ -16,15 +16,16 @@ import (
 // ---------- case description (JSON) ----------
 
 type SimCfg struct {
-	NumCPU    int           `json:"numcpu,omitempty"`
-	Policy    string        `json:"policy,omitempty"` // canonical | random | pct
-	PreemptP  float64       `json:"p,omitempty"`
-	PCTDepth  int           `json:"pctd,omitempty"`
-	PCTLen    int64         `json:"pctlen,omitempty"`
-	SchedSeed uint64        `json:"sseed,omitempty"`
-	Stalls    []simrt.Stall `json:"stalls,omitempty"`
-	Decisions []int64       `json:"decisions,omitempty"` // non-nil => replay exactly these
-	UseDecs   bool          `json:"usedecs,omitempty"`
+	NumCPU     int           `json:"numcpu,omitempty"`
+	GoMaxProcs int           `json:"gomaxprocs,omitempty"`
+	Policy     string        `json:"policy,omitempty"` // canonical | random | pct
+	PreemptP   float64       `json:"p,omitempty"`
+	PCTDepth   int           `json:"pctd,omitempty"`
+	PCTLen     int64         `json:"pctlen,omitempty"`
+	SchedSeed  uint64        `json:"sseed,omitempty"`
+	Stalls     []simrt.Stall `json:"stalls,omitempty"`
+	Decisions  []int64       `json:"decisions,omitempty"` // non-nil => replay exactly these
+	UseDecs    bool          `json:"usedecs,omitempty"`
 }
 
 type GenCfg struct {
@@ -377,7 +378,7 @@ type RunOut struct {
 
 func simConfig(sim SimCfg, b Budgets) simrt.Config {
 	c := simrt.Config{
-		Seed: sim.SchedSeed, NumCPU: sim.NumCPU, Policy: sim.Policy, PreemptP: sim.PreemptP,
+		Seed: sim.SchedSeed, NumCPU: sim.NumCPU, GoMaxProcs: sim.GoMaxProcs, Policy: sim.Policy, PreemptP: sim.PreemptP,
 		PCTDepth: sim.PCTDepth, PCTLen: sim.PCTLen, Stalls: sim.Stalls,
 		MaxYields: b.MaxYields, MaxDecs: b.MaxDecs, MaxTime: b.MaxTime,
 		GraceYields: b.GraceYields, GraceTime: b.GraceTime, GraceDecs: b.GraceDecs, KeepLog: b.KeepLog,
